@@ -8,6 +8,7 @@ from .util import *
 from .bounds import handle_ctors, range_handle_invariants, is_cursor_key
 
 ONE = Poly.const(1)
+JUDGED = {}       # id(RuleResult) -> raw def paths of the functions some row judges (filled by Row)
 
 
 def real_mutations(I, inst=None):
@@ -45,6 +46,7 @@ class Row:
     def __init__(self, res, ctx, name, fpath, arm, I):
         self.res, self.ctx, self.name, self.fpath, self.arm, self.I = res, ctx, name, fpath, arm, I
         self.bad = False
+        JUDGED.setdefault(id(res), set()).add(ctx.P(fpath) or fpath)
         res.inst(sample={"row": name, "function": fpath, "arm": arm_name(arm)}, func=fpath)
 
     def fail(self, what, eff=None, sub=""):
@@ -554,7 +556,42 @@ def r_formula(ctx):
     _bytes_ptr_rows(res, ctx, ctors, ctor_by_adt)
     _into_range_row(res, ctx, arms)
     _backend_growth_rows(res, ctx, arms)
+    _unjudged_mutations(res, ctx)
     return res
+
+
+def _unjudged_mutations(res, ctx):
+    """inventory: every effect on a vector reachable from the public API sits inside a function that some row of this rule judges (or in a function
+    expanded from one). A new public operation that writes a vector (say an allocation-reusing `clone_from`) has no row and is reported instead of being
+    silently outside the model."""
+    judged = JUDGED.get(id(res), set())
+    seen = set()
+    for f in ctx.public_safe_fns():
+        fpath = f["path"]
+        for tt, I in ctx.arms(fpath) or []:
+            for e in real_mutations(I):
+                if e.kind == "STORE" and not is_len_path(e["path"]):
+                    continue
+                inst = e.node.inst
+                ok = False
+                chain = []
+                while inst is not None:
+                    chain.append(inst.path())
+                    if inst.path() in judged:
+                        ok = True
+                        break
+                    inst = inst.parent
+                key = (chain[0], e.kind)
+                if key in seen:
+                    continue
+                seen.add(key)
+                res.inst(sample={"public_entry": fpath, "effect": e.kind, "in": chain[0], "judged_by_a_row": ok}, func=chain[0])
+                if ok:
+                    res.ok()
+                else:
+                    res.fail(chain[0], "unjudged-mutation:" + e.kind.lower(), "%s (reached from the public %s) performs %s on a vector, and no row of the Vec model covers "
+                             "this function: the operation is outside everything these checks decide" % (chain[0], fpath, e.kind), span=span_of_effect(e),
+                             kind="coverage-lost")
 
 
 def _splice_row(row, I, sh, start, OL, E, st, fl, F, roles):
